@@ -102,45 +102,9 @@ CASE_T = 'styles * bool * list group'
 SYSTEM_KEYWORDS = ('cyclic', 'numeric', 'alphabetic', 'symbolic', 'additive', 'fixed')
 
 
-def reachable(user, name):
-    """the user styles the rendering of `name` can involve: closure over `extends` targets and fallbacks."""
-    names = {k: d for k, d in user}
-    seen, todo = {}, [name] if isinstance(name, str) else []
-    while todo:
-        n = todo.pop()
-        if n in seen or n not in names:
-            continue
-        d = names[n]
-        seen[n] = d
-        if d['system'] and d['system'][0]:
-            todo.append(d['system'][1])
-        todo.append(d['fallback'] or 'decimal')
-    return seen
-
-
 def classify(user, q, out, base_names=()):
-    """signature (mechanism) of a deviation from the specification observed on query q; None = not a known one.
-    Only the styles reachable from the queried name (extends / fallback closure) are looked at, so that an odd rule
-    elsewhere in the sheet cannot excuse a wrong rendering of a clean style."""
-    all_names = {k for k, _ in user}
-    names = reachable(user, q[1])
-    if out[0] == 'exc':
-        if out[1].startswith('IndexError') and any(d['symbols'] == [] for d in names.values()):
-            return 'c15:extends-with-symbols-indexerror'
-        return None
-    if out[0] == 'rec':
-        return None
-    if any(k in SYSTEM_KEYWORDS for k in names):
-        return 'c15:style-named-like-a-system'
-    if any(d['system'] and d['system'][0] and (d['symbols'] is not None or d['additive_symbols'] is not None)
-           for d in names.values()):
-        return 'c15:extends-with-symbols-accepted'
-    if any(d['system'] and d['system'][0] and d['system'][1] not in all_names and d['system'][1] not in base_names
-           for d in names.values()):
-        return 'c15:extends-unknown-drops-descriptors'
-    if any(d['system'] and d['system'][0] for d in names.values()) and \
-            sum(1 for d in names.values() if d['fallback']) >= 2:
-        return 'c15:extends-ancestors-in-fallback-cycle-list'
+    """signature of a known open deviation from the specification explaining query q.  All the counter-style
+    findings (F56-F62, F165) are repaired: nothing is excused, every deviation is reported as a violation."""
     return None
 
 
@@ -345,13 +309,7 @@ def load_corpus(kind):
 
 CHUNK = 60        # queries per Coq case (the judge's result encodes two indices < 64)
 
-WHAT = {
-    'c15:extends-with-symbols-indexerror': 'IndexError in render_value for an extending style with an empty symbols descriptor',
-    'c15:extends-with-symbols-accepted': '@counter-style with `system: extends` and symbols/additive-symbols is not rejected',
-    'c15:extends-unknown-drops-descriptors': 'a style extending an undefined style loses its own descriptors (plain decimal is printed)',
-    'c15:style-named-like-a-system': 'a counter style whose name is a system keyword confuses the fallback cycle detection',
-    'c15:extends-ancestors-in-fallback-cycle-list': 'the styles met while resolving `extends` count as already tried when following fallbacks (decimal is used instead of the fallback style)',
-}
+WHAT = {}
 
 
 def run_style_cases(run, stream, tag, cases, base_entries, with_spec, per_file=None, impl_fn='render_queries',
@@ -790,11 +748,12 @@ def scope_stream(run, rng, thorough):
 
 # ------------------------------------------- element counters mixed with page-based / target content (renders)
 
-EXTRAS = ['P', 'T', 'X', 'C', 'PT', 'PX', 'PC', 'TX', 'CT', 'PTC']
+EXTRAS = ['P', 'T', 'X', 'C', 'PT', 'PX', 'PC', 'TX', 'CT', 'PTC', 'N', 'NT', 'PN']
 EXTRA_CSS = {
     'P': ' "~P" counter(page) "/" counter(pages)',
     'T': ' "~T" target-counter(attr(href), page)',
     'X': ' "~X" target-text(attr(href))',
+    'N': ' "~N" target-counter(attr(href), pages)',
     'C': ' "~C" ' + ' "|" '.join('target-counters(attr(href), %s, ".")' % n for n in OBS_NAMES),
 }
 
@@ -805,8 +764,9 @@ def gen_mixed_doc(rng, flavour=None):
     them (attr(href)), or several of these: such content is parsed again after the first parse.
     Flavours: 'clean' (the root resets the four observed counters, so that every counter()/target-counter() names a
     counter that exists; no page-based content in ::marker; page counters before target counters) and three that
-    add one feature each: 'undefined' (no root reset: open finding F193), 'marker' (page-based / target content in
-    ::marker: open finding F194), 'target-first' (target-counter(.., page) before counter(pages): fixed F192)."""
+    add one feature each (all judged normally, the findings they exposed are repaired): 'undefined' (no root reset,
+    F193), 'marker' (page-based / target content in ::marker, F194), 'target-first' (target-counter(.., page) before
+    counter(pages), F192)."""
     if flavour is None:
         r = rng.random()
         flavour = 'clean' if r < 0.8 else 'undefined' if r < 0.88 else 'marker' if r < 0.95 else 'target-first'
@@ -950,6 +910,10 @@ def mixed_printed(doc, o):
                 want = str(min(o['elements'].get(tgt) or [0]))
                 if val != want:
                     page_bad.append((eid, kind, 'target-counter(#%s, page)' % tgt, val, want))
+            elif tag == 'N':
+                want = str(o['pages'])
+                if val != want:
+                    page_bad.append((eid, kind, 'target-counter(#%s, pages)' % tgt, val, want))
             elif tag == 'X':
                 want = 'w' + tgt[1:]
                 if val != want:
@@ -1001,27 +965,15 @@ def mixed_stream(run, rng, thorough):
         flavours[d['flavour']] = flavours.get(d['flavour'], 0) + 1
         data = {'stream': 'mixed-content-renders', 'html': c['html'], 'doc': d, 'flavour': d['flavour']}
         if problems:
-            if d['flavour'] == 'marker' and all('::marker' in p for p in problems):
-                later('::marker content with page-based / target content is never parsed again: %s' % problems[0],
-                         dict(data, problems=problems[:5]), signature='c15:marker-content-never-reparsed')
-            else:
-                later('mixed-content counter document: %s' % problems[0], dict(data, problems=problems[:5]),
-                         signature='c15:mixed-boxes')
+            later('mixed-content counter document: %s' % problems[0], dict(data, problems=problems[:5]),
+                  signature='c15:mixed-boxes')
             continue
         if page_bad and o['loops'] >= o['max_loops']:
             outcomes['not-converged'] += 1
         elif page_bad:
             outcomes['page-part-wrong'] += 1
-            order = d['order']
             def mechanism(b):
-                """the known defect that explains this wrong page part, by the flavour's feature and the exact pattern"""
-                eid, kind, what, val, want = b
-                if d['flavour'] == 'marker' and kind == 'marker':
-                    return 'c15:marker-content-never-reparsed'
-                if d['flavour'] == 'undefined' and what.startswith('target-counter(') and val == '0':
-                    tgt = what[len('target-counter(#'):].split(',')[0]
-                    if tgt in order and eid in order and order.index(tgt) > order.index(eid):
-                        return 'c15:stale-lookup-item-forward-target-page'
+                """no open finding explains a wrong page part any more (F192-F195, F197 are repaired)"""
                 return None
             by_sig = {}
             for b in page_bad:
@@ -1065,7 +1017,7 @@ def mixed_stream(run, rng, thorough):
                          'href pointing to an element before or after; element parts (own and target) judged in Coq against the '
                          'snapshot model and the CSS reference, page parts in Python against the final pagination '
                          '(not-converged when the loop used all its passes); 80% clean documents (root resets the four counters, no '
-                         'page-based ::marker content, page counters before target counters), 20% add one feature with an open finding')
+                         'page-based ::marker content, page counters before target counters), 20% add one of these features')
 
 
 # ---------------------------------------------------------------------- tables of contents (monitor, Python)
@@ -1166,14 +1118,12 @@ def toc_stream(run, rng, thorough):
         nlinks += len(o['links'])
         loops_hist[o['loops']] = loops_hist.get(o['loops'], 0) + 1
         if res == 'wrong':
-            # a reference that lies on the same page as its target and keeps an earlier page of the target is a
-            # separate (open) finding; any other wrong entry is reported without signature
-            same_page_only = all(b[2] == b[5] for b in detail)
+            same_page_only = all(b[2] == b[5] for b in detail)     # only told in the message (F195 is repaired)
             run.fail('target-counter(page) printed %r for a target on page %s%s although the layout loop stopped after %d of %d passes'
                      % (detail[0][3], detail[0][4], ' (reference on the same page as its target)' if same_page_only else '',
                         o['loops'], o['max_loops']),
                      {'stream': 'toc-renders', 'html': c['html'], 'style': c['style'], 'detail': detail, 'loops': o['loops']},
-                     signature='c15:same-page-reference-stale-page' if same_page_only else 'c15:target-counter-page-wrong')
+                     signature='c15:target-counter-page-wrong')
         elif res == 'malformed':
             run.fail('table of contents document: %s' % detail, {'stream': 'toc-renders', 'html': c['html'], 'style': c['style']},
                      signature='c15:toc-harness')
